@@ -83,6 +83,9 @@ def execute(req):
         topts["reg"] = req["reg"]
     if m == "rbasex" and req["out"] is not None:
         topts["out"] = req["out"]
+    if m == "rbasex" and req.get("order") is not None:
+        topts["order"] = req["order"]
+        topts["odd"] = bool(req.get("odd"))
     try:
         with warnings.catch_warnings(), contextlib.redirect_stdout(io.StringIO()):
             warnings.simplefilter("ignore")
@@ -146,7 +149,7 @@ def model_line(req):
 
 def base(**kw):
     r = dict(via=True, method="hansenlaw", dir="inverse", oneD=False, rows=11, cols=11, origin=None,
-             crop="maintain_size", uq=(True, True, True, True), sym="average", reg=None, out=None)
+             crop="maintain_size", uq=(True, True, True, True), sym="average", reg=None, out=None, order=None, odd=False)
     r.update(kw)
     return r
 
@@ -190,6 +193,10 @@ def table(tier):
     for out, via, (d, _) in itertools.product(("same", "fold", "unfold", "full", "full-unique", "bogus", "Same"),
                                               (True, False), DIRS[:3]):
         reqs.append(base(via=via, method="rbasex", out=out, dir=d))
+    # … the output names also with odd angular orders (another branch of the output-geometry code)
+    for out, via, (order, odd) in itertools.product(("same", "full", "bogus", "Full", "unique", ""), (True, False), ((1, False), (3, False), (2, True), (0, False))):
+        for d in ("inverse", "forward"):
+            reqs.append(base(via=via, method="rbasex", out=out, dir=d, order=order, odd=odd))
     # D. seeded random interactions
     rng = np.random.default_rng(seed() + 20)
     n = 400 if tier == "quick" else 4000
